@@ -1,8 +1,14 @@
 Require Import FastZ.
-From Dashu Require Import Base.Prelude Float.RoundSpec Float.Contract Float.Model Float.RoundOpsModel Ratio.RatRoundModel.
+From Dashu Require Import Base.Prelude Float.RoundSpec Float.Contract Float.Model Float.RoundOpsModel Ratio.RatRoundModel Float.RoundOpsDeep.
+From DashuGen Require Import RatioSmall RoundPrimGen.
 Extraction "model.ml" dlen spec_round round_fract round_ratio normalize repr_round
   int_spec is_int to_int_spec fract_sig_spec with_precision_spec flag_of_adj
   smaller_than_one split_internal trunc_asis fract_asis split_asis ceil_asis floor_asis round_asis
   to_int_asis repr_to_int_asis with_precision_asis split_digits_10 split_digits_pow2 shr_digits_10 split_digits
   dub_exact dub_plus
-  rat_split rat_ceil rat_floor rat_trunc rat_fract rat_round rat_reduce rat_reduce2.
+  rat_split rat_ceil rat_floor rat_trunc rat_fract rat_round rat_reduce rat_reduce2
+  is_inf trunc_full fract_full split_full ceil_full floor_full round_full to_int_full repr_to_int_full
+  with_precision_full with_same_base_full with_precision_twice round_fract_debug round_ratio_pub round_ratio_pre
+  rat_split_at_point_gen rat_ceil_gen rat_floor_gen rat_trunc_gen rat_fract_gen rat_round_gen
+  round_fract_gen round_fract_pre_gen round_ratio_gen round_ratio_pre_gen smaller_than_one_gen round_to_zero_test_gen
+  round_low_part int_tiny to_int_tiny.
